@@ -52,12 +52,20 @@ def load_baseline_callees():
     return {}
 
 
+VSTD_EXACT = {".saturating_sub", ".saturating_add", ".checked_sub", ".checked_add", ".wrapping_sub", ".wrapping_add", ".min", ".max", ".clamp",
+              ".is_some", ".is_none", ".unwrap", ".unwrap_or", ".expect", ".take", ".as_ref", ".cmp", ".len", ".is_empty"}
+
+
 def has_contract_in_unit(callee, text):
     """is `callee` (".method", "path::fn", "macro!") something this unit defines or specifies itself?"""
     import re as _re
     if callee.endswith("!") or callee.endswith("!;"):
         return False  # a macro expands to library calls the unit does not see by name
     name = callee.lstrip(".").split("::")[-1]
+    # std methods whose vstd specification is exact (checked: a function that returns `a.saturating_sub(b)` etc. verifies
+    # against the mathematical definition): calling one of them does not make a proof incomparable
+    if callee in VSTD_EXACT:
+        return True
     return bool(_re.search(r"\bfn\s+" + _re.escape(name) + r"\b", text) or _re.search(r"[:\[]" + _re.escape(name) + r"\]", text))
 
 
